@@ -31,6 +31,7 @@ Ident(mod, name) == Esc(mod) \o <<95, 95>> \o Esc(name)
    UTF-8 character (bytes >= 0x80), punctuation *)
 CONSTANT MaxLen
 Alphabet == {97, 88, 95, 48, 36}
+AlphabetSmall == {97, 88, 95}      \* the classes that interact at the separator; lets MaxLen = 3 finish (pairs of pairs are enumerated)
 RECURSIVE Names(_)
 Names(n) == IF n = 0 THEN {<<>>} ELSE LET S == Names(n - 1) IN S \cup {s \o <<c>> : s \in {t \in S : Len(t) = n - 1}, c \in Alphabet}
 AllNames == Names(MaxLen) \cup {<<195, 169>>, <<97, 195, 169>>}        \* plus "e-acute", "a e-acute"
@@ -41,9 +42,11 @@ Collisions == {pq \in Pairs \X Pairs :
                  /\ pq[1] # pq[2]
                  /\ Ident(pq[1][1], pq[1][2]) = Ident(pq[2][1], pq[2][2])}
 
-\* a collision is of the "underscore boundary" kind if it only moves underscores across the separator
-Strip_(s) == SelectSeq(s, LAMBDA b : b # 95)
-BoundaryKind(pq) == /\ Strip_(pq[1][1]) = Strip_(pq[2][1]) /\ Strip_(pq[1][2]) = Strip_(pq[2][2])
+\* Two kinds of collision.  Separator kind: the escaped module parts differ, i.e. the same identifier text is split at
+\* different places - possible only because the separator "__" also arises from underscores next to it (the known
+\* finding: ("a_","b") / ("a","_b"), and with the doubled-underscore rule ("_","X__") / ("__X","_")).  Escape kind: the
+\* parts are escaped to the same text although they differ - the escaping itself would not be injective.
+BoundaryKind(pq) == Esc(pq[1][1]) # Esc(pq[2][1])
 
 VARIABLE st
 Init == st = 0
